@@ -45,6 +45,8 @@ class FsRun:
         self.cwd0 = None
         self.phase = "ops"
         self.quiet = True  # nothing in flight: observer just started or a drain just completed
+        self.vanished = []
+        self.busy = False  # a multi-primitive operation is in progress (the model lags behind the real tree)
 
     # ------------------------------------------------------------------ paths
     def real(self, rel):
@@ -107,6 +109,7 @@ class FsRun:
         M = self.modules()
         prims.install_base(p, modules_threading=[M["api"], M["ino"], M["ic"], M["dq"]], modules_time=[M["dq"]])
         self.kshim = kshim.install(p, sim, top=self.topb, faults=self.case.get("faults"))
+        self.kshim.vanish_hook = self.vanish
         p.set(M["ib"].InotifyBuffer, "delay", self.case.get("delay", 0.5))
         os.makedirs(self.top + "/root")
         os.makedirs(self.top + "/out")
@@ -175,6 +178,37 @@ class FsRun:
         self.handlers = [H(0)]
         return self.observer
 
+    def vanish(self, path):
+        """Vanish fault: called by the shim right before the library's add_watch of `path`: a legal concurrent
+        removal of that entry, recorded in the history like any other operation."""
+        sim = prims.cur_sim()
+        rel = self.norm_real(path)
+        m = self.model
+        if self.busy or rel is None or rel not in m.t or rel == "root" or not fm.is_under(rel, "root"):
+            return
+        op = ["rmtree", rel] if m.kind(rel) == "d" else ["unlink", rel]
+        R, A = fm.contract(m, op, self.recursive, self.full)
+        self.opi += 1
+        self.contracts.append({"op": op, "R": R, "A": A, "opi": self.opi, "drained": False, "clean_start": False, "seq0": sim.next_seq(), "fault": True})
+        self.quiet = False
+        for q in sorted([rel] + m.subtree(rel), key=lambda q: (-q.count("/"), q)):
+            if m.kind(q) == "d":
+                os.rmdir(self.real(q))
+            else:
+                os.unlink(self.real(q))
+        fm.apply(m, op)
+        self.vanished.append(rel)
+        sim.fault_fired("vanish")
+        sim.rec("vanish", rel)
+
+    def norm_real(self, path):
+        b = os.fsencode(path)
+        if b.startswith(self.topb + b"/"):
+            return os.fsdecode(b[len(self.topb) + 1:]).rstrip("/")
+        if self.w.get("spelling") == "rel" and not b.startswith(b"/"):
+            return os.fsdecode(b).rstrip("/")
+        return None
+
     # ------------------------------------------------------------------ real tree
     def scan(self, rel="root"):
         """Real tree below rel: model path -> kind.  Plain os.scandir, outside the shim."""
@@ -206,7 +240,19 @@ class FsRun:
         sim = prims.cur_sim()
         m = self.model
         k = op[0]
-        Y = (lambda: None) if pre else (lambda: sim.yield_point("op"))
+        first = [True]
+
+        def Y():
+            # yield point before every primitive; the first one was already taken before the validity check
+            if pre:
+                return
+            if first[0]:
+                first[0] = False
+                return
+            sim.yield_point("op")
+
+        if not pre and k != "drain":
+            sim.yield_point("op")
         if k == "drain":
             sim.wait_quiescent()
             m.drain()
@@ -214,6 +260,9 @@ class FsRun:
                 self.contracts[-1]["drained"] = True
             self.quiet = True
             sim.rec("drain")
+            return
+        if not pre and self.vanished and not fm.valid(m, op, paced=False):
+            sim.rec("skip", op)  # its subject vanished through an injected concurrent removal
             return
         if not pre:
             self.opi += 1
@@ -223,6 +272,7 @@ class FsRun:
             self.quiet = False
             sim.rec("op", op)
         r = self.real
+        self.busy = k in ("makedirs", "rmtree", "out_rmtree", "rmroot")
         if k == "mkfile":
             Y()
             with open(r(op[1]), "w"):
@@ -302,6 +352,7 @@ class FsRun:
             os.mkdir(r(op[1]))
         else:
             raise AssertionError(f"unknown op {op}")
+        self.busy = False
         before = fm.Model.__new__(fm.Model)
         before.t = dict(m.t)
         fm.apply(m, op)
